@@ -251,9 +251,11 @@ class _Plain:
 # ------------------------------------------------------------------ generators
 
 ALPHABET = ["\x00", "\\", ".", "(", ")", "[", "]", "*", "+", "?", "^", "$", "|", "{", "}", "\n", "0", "1", "5", "9", "-",
-            "a", "b", "A", "z", " ", "é", "€", "\U0001f600", "\U0002ffff", "\x7f", "\x80", "\xff", "u"]
+            "a", "b", "A", "z", " ", "é", "€", "\U0001f600", "\U0002ffff", "\x7f", "\x80", "\xff", "u",
+            # code points that codecs treat specially: byte order marks, noncharacters, the ends of the surrogate gap, separators
+            "\ufeff", "\ufffe", "\uffff", "\ud7ff", "\ue000", "\u2028", "\x85", "\U00010000"]
 SPECIAL_TEXTS = ["", "\\u{48}", "\\u{0}", "\\x41", "\\u0041", "-5", "+5", "007", "12", "18446744073709551616", "a.", "ab", ".*",
-                 "(", "a|b", "[a", "\\", "\\\\", "0", "١", "1 ", "٣"]
+                 "(", "a|b", "[a", "\\", "\\\\", "0", "١", "1 ", "٣", "\ufeffab", "\ufeff", "a\ufeff", "\ufffea"]
 
 
 def texts(max_len=6):
